@@ -18,12 +18,12 @@
 #define SEM_SLOT 4     /* key stub: "/C_p_sem_object" -> "/E" */
 
 static PShm *h[2];
-static int h_live[2], h_gen[2], h_owner[2], h_locked[2];
+static int h_live[2], h_gen[2], h_owner[2], h_locked[2], h_rw[2];
 static unsigned long h_req[2];
 static int r_exists, r_gen, r_holder = -1, gen_ctr;
 static unsigned long r_size;
 static int n_new, n_open_existing, n_lock, n_ownerfree, n_access2, n_nested, n_fresh_after_free;
-static int outer_p = -1, outer_is_lock;
+static int outer_p = -1, outer_is_lock, n_ro_owner;
 
 static int is_current(int p) { return h_live[p] && r_exists && h_gen[p] == r_gen; }
 
@@ -43,7 +43,9 @@ static void op_new(int p) {
   unsigned long size = (unsigned long) ND_RANGE(0, VK_SEGMAX);
   int existed = r_exists;
   vk_cur = p;
-  PShm *s = p_shm_new("a", size, P_SHM_ACCESS_READWRITE, NULL);
+  /* symbolic access permission: ownership, naming, sizes, lock and clean-up must not depend on it */
+  int rw = ND_BOOL();
+  PShm *s = p_shm_new("a", size, rw ? P_SHM_ACCESS_READWRITE : P_SHM_ACCESS_READONLY, NULL);
   if (!existed && size == 0) {
     /* a segment of length zero cannot be mapped: creation fails, nothing may be left behind */
     VASSERT(s == NULL, "creating a zero-sized segment fails");
@@ -53,7 +55,7 @@ static void op_new(int p) {
   }
   VASSERT(s != NULL, "p_shm_new succeeds");
   VASSUME(s != NULL);
-  h[p] = s; h_live[p] = 1; h_req[p] = size; h_locked[p] = 0; h_owner[p] = 0;
+  h[p] = s; h_live[p] = 1; h_rw[p] = rw; h_req[p] = size; h_locked[p] = 0; h_owner[p] = 0;
   if (!existed) {
     r_exists = 1; r_gen = ++gen_ctr; r_size = size; r_holder = -1; h_owner[p] = 1;
     VASSERT(p_shm_get_size(s) == size, "creator sees exactly the size it asked for");
@@ -71,6 +73,7 @@ static void op_new(int p) {
   VASSERT(gs > 0, "reported size is positive");
   VASSERT(gs <= (unsigned long) vk_shm_size(obj), "every offset below p_shm_get_size lies inside the segment");
   VASSERT(gs <= (unsigned long) vk_map_len(p, a), "every offset below p_shm_get_size lies inside the mapping");
+  if (rw) VASSERT(vk_map_writable(p, a), "a READWRITE handle is mapped writable");
   if (!existed) {
     unsigned long o = (unsigned long) ND_RANGE(0, VK_SEGMAX - 1);
     if (o < gs) VASSERT(a[o] == 0, "a fresh segment reads as zero");
@@ -150,8 +153,8 @@ void harness(void) {
       VASSUME(h_live[p] && h_locked[p]);
       op_unlock(p);
     } else if (op == 3) {
-      /* store through one handle, load through the other */
-      VASSUME(h_live[p]);
+      /* store through one (READWRITE) handle, load through the other (any permission) */
+      VASSUME(h_live[p] && h_rw[p]);
       unsigned long gs = p_shm_get_size(h[p]);
       unsigned long o = (unsigned long) ND_RANGE(0, VK_SEGMAX - 1);
       VASSUME(o < gs);
@@ -174,13 +177,14 @@ void harness(void) {
       vk_cur = p;
       p_shm_free(h[p]);
       h_live[p] = 0;
-      if (h_owner[p]) { r_exists = 0; n_ownerfree++; }
+      if (h_owner[p]) { r_exists = 0; n_ownerfree++; if (!h_rw[p]) n_ro_owner++; }
     }
     check_state();
   }
   VWITNESS("end of history");
   if (n_open_existing >= 1 && n_lock >= 1) VWITNESS("second handle opened and lock taken");
   if (n_access2 >= 1) VWITNESS("store/load across two handles");
+  if (n_ownerfree >= 1 && n_ro_owner >= 1) VWITNESS("owner free through a READONLY handle");
   if (n_fresh_after_free >= 1) VWITNESS("fresh segment created after an owner free");
 #ifdef PREEMPT
   if (n_nested >= 1) VWITNESS("nested call of the other process");
